@@ -142,42 +142,60 @@ Definition lift_table {A} (o : outcome A) (f : A -> table) : outcome (bool * tab
   | Panic s => Panic s
   end.
 
-(* processClause: (unresolvable, table) *)
+(* processClause, the part for clauses that are not handled as an existence test: fresh fetch + product / left optional
+   join when no binding of the clause is in the table, per-row specialisation otherwise *)
+Definition process_general (e : cfg) (gs : list graph) (lo : lopts) (c : clause) (t : table) : outcome (bool * table) :=
+  let existing := filter (fun b => mem b (tb t)) (clause_bindings c) in
+  match existing with
+  | [] =>
+      bind (simple_fetch e gs c lo) (fun rows =>
+        let t2 := mkTable (clause_bindings c) rows in
+        match tb t with
+        | [] =>
+            (* after repair F27 an OPTIONAL clause that matches nothing extends the unit row with NULLs *)
+            let t2' := if fixou e && c_opt c && (match rows with [] => true | _ => false end)
+                       then mkTable (clause_bindings c) (add_row [] (null_row (clause_bindings c) []))
+                       else t2 in
+            lift_table (append_table t t2') (fun x => x)
+        | _ => if c_opt c
+               then match left_optional_join (fix9 e) t t2 with
+                    | Ok (LojTable t') => Ok (false, t')
+                    | Ok LojRange => Err EOther
+                    | Err x => Err x
+                    | Panic s => Panic s
+                    end
+               else lift_table (dot_product t t2) (fun x => x)
+        end)
+  | _ =>
+      lift_table (specify_rows e gs lo c (trows t))
+        (fun rows => mkTable (match trows t with [] => tb t | _ => add_all (tb t) (clause_bindings c) end) rows)
+  end.
+
+(* processClause: (unresolvable, table).  A fully specified clause is an existence test; after repair F26 only while the
+   table has no bindings or the clause has no alias (then it is a condition on the rows found so far), otherwise it is
+   processed like any other clause. *)
 Definition process_clause (e : cfg) (gs : list graph) (lo : lopts) (c : clause) (t : table) : outcome (bool * table) :=
   if specificity3 c then
     if c_opt c && negb (has_alias c) then Ok (false, t)
-    else
+    else if negb (fixs3 e) || (match tb t with [] => true | _ => false end) || negb (has_alias c) then
       match cS c, cP c, cO c with
       | Some s, Some p, Some o =>
           bind (simple_exist e gs c (mkTriple s p o) lo) (fun ur =>
-            match append_table t (mkTable (clause_bindings c) (snd ur)) with
-            | Ok t' => Ok (fst ur, t')
-            | Err x => Err x
-            | Panic s => Panic s
-            end)
+            if fixs3 e && negb (match tb t with [] => true | _ => false end)
+            then Ok (fst ur, t)
+            else
+              (* after repair F27 an OPTIONAL clause (with alias) whose triple is absent NULL-extends the unit row *)
+              if fixou e && c_opt c && fst ur
+              then lift_table (append_table t (mkTable (clause_bindings c) (add_row [] (null_row (clause_bindings c) [])))) (fun x => x)
+              else match append_table t (mkTable (clause_bindings c) (snd ur)) with
+                   | Ok t' => Ok (fst ur, t')
+                   | Err x => Err x
+                   | Panic s => Panic s
+                   end)
       | _, _, _ => Err EOther
       end
-  else
-    let existing := filter (fun b => mem b (tb t)) (clause_bindings c) in
-    match existing with
-    | [] =>
-        bind (simple_fetch e gs c lo) (fun rows =>
-          let t2 := mkTable (clause_bindings c) rows in
-          match tb t with
-          | [] => lift_table (append_table t t2) (fun x => x)
-          | _ => if c_opt c
-                 then match left_optional_join (fix9 e) t t2 with
-                      | Ok (LojTable t') => Ok (false, t')
-                      | Ok LojRange => Err EOther
-                      | Err x => Err x
-                      | Panic s => Panic s
-                      end
-                 else lift_table (dot_product t t2) (fun x => x)
-          end)
-    | _ =>
-        lift_table (specify_rows e gs lo c (trows t))
-          (fun rows => mkTable (match trows t with [] => tb t | _ => add_all (tb t) (clause_bindings c) end) rows)
-    end.
+    else process_general e gs lo c t
+  else process_general e gs lo c t.
 
 (* processGraphPattern: clauses in textual order; an unresolvable clause truncates the table and stops *)
 Fixpoint process_pattern (e : cfg) (gs : list graph) (lo : lopts) (cs : list clause) (t : table) : outcome table :=
